@@ -84,7 +84,7 @@ ASSUMPTIONS = [
 
 
 def cases(rng, tier):
-    return S.gen_cases(rng, tier, 2000 if tier == "quick" else 36000)
+    return S.gen_cases(rng, tier, 2000 if tier == "quick" else 26000)
 
 
 def search_cases(rng, tier):
